@@ -170,9 +170,17 @@ def sprinkle_specials(R: Draw, rs, node: dict) -> dict:  # noqa: ANN001
     if node["t"] == "image" and R.bool(0.3):
         a["src"] = a["src"] + R.choice(SPECIALS)
         a["title"] = R.choice([None, 'q"t', "a&b"])
+    if node["t"] == "image" and R.bool(0.1):
+        # empty strings are values, not "unset": src="" / title="" must survive export and import
+        if R.bool():
+            a["src"] = ""
+        else:
+            a["title"] = ""
     marks = []
     for m in node["m"]:
-        if m[0] == "link" and R.bool(0.3):
+        if m[0] == "link" and R.bool(0.1):
+            marks.append(["link", {**m[1], "href": ""}])
+        elif m[0] == "link" and R.bool(0.3):
             marks.append(["link", {**m[1], "href": m[1]["href"] + R.choice(SPECIALS)}])
         else:
             marks.append(m)
